@@ -1,0 +1,57 @@
+//go:build verif
+
+package core
+
+// Contracts for govc (/verif). Comment-only file: invisible without -tags verif.
+
+// ---------------------------------------------------------------------------
+// externals used by the scanning phase (assumed contracts, listed in the evidence)
+
+//@ extern errors.New(text)
+//@   attr pure deterministic nopanic
+//@   ensures result != nil
+//@ extern errors.Is
+//@   attr pure deterministic nopanic
+//@ extern fmt.Errorf
+//@   attr pure deterministic nopanic
+//@   ensures result != nil
+//@ extern strings.Contains(s, substr)
+//@   attr pure deterministic nopanic
+//@   ensures result == contains(s, substr)
+//@ extern strings.ContainsRune(s, r)
+//@   attr pure deterministic nopanic
+//@   ensures imp(0 <= r && r < 128, result == contains(s, char(r)))
+//@ extern (io/fs.FileInfo).IsDir(i)
+//@   attr pure nopanic
+
+// confined(p): p = Join(Dir(f), q) for an already opened project file f and a relative,
+// dot-segment-free, backslash-free q (so p lies in the directory of f or below it).
+//@ opaque pred confined(p string)
+//@ opaque pred projDir(d string)
+//@ extern path/filepath.Dir(path)
+//@   attr pure deterministic nopanic
+//@   ensures projDir(result)
+// Lemma (assumed; bounded conformance run in /verif/bounded): joining a directory with a safe relative name stays below it.
+//@ extern path/filepath.Join(elem)
+//@   attr pure deterministic nopanic
+//@   ensures imp(len(elem) == 2 && projDir(elem[0]) && safeRel(elem[1]), confined(result))
+//@ extern os.Stat(name)
+//@   attr nopanic
+//@   requires[C14,@path-confined] confined(name)
+//@ extern os.ReadFile(name)
+//@   attr nopanic
+//@   requires[C14,@path-confined] confined(name)
+
+// The statement's rule for INCLUDE parameters, written from the statement (segments are delimited by '/' or the string ends).
+//@ pred hasDotSegment(s string) := s == "." || s == ".." || prefixof("./", s) || prefixof("../", s)
+//@     || suffixof("/.", s) || suffixof("/..", s) || contains(s, "/./") || contains(s, "/../")
+//@ pred safeRel(s string) := len(s) > 0 && s[0] != '/' && !hasDotSegment(s) && !contains(s, "\\")
+
+//@ func validateIncludeFileName(s)
+//@   property C14
+//@   ensures[C14,@include-name] imp(result == nil, safeRel(s))
+
+//@ func readFile(p)
+//@   property C14
+//@   requires[C14,@path-confined] confined(p)
+//@   ensures imp(result1 == nil, result0 != nil && fresh(result0))
